@@ -24,6 +24,41 @@ type extCodec[V any] struct {
 	randVal   func(r *Rand) V                   // arbitrary receiver content / value (in and out of range)
 	values    func(x *Ctx, emit func(v V))      // the value domain for the marshal kind
 	inputs    func(x *Ctx, emit func(b []byte)) // extra byte-string inputs for the unmarshal kind
+	// edit (nil for values without exported pointers / slices): the caller writes through every
+	// exported pointer of a value it was handed (`*v.EstimatedCaptureClockOffset += k`); returns how to
+	// put the old contents back
+	edit func(r *Rand, v *V) (undo func())
+}
+
+// extEditEarlier is the history "earlier results were edited by their owner": OTHER receivers (zero
+// values) decode the given payloads — the very bytes the decode under test is about to see — and the
+// caller then writes through every exported pointer of what they decoded.  None of this touches the
+// receiver under test or the payloads, so what the property says about the decode under test is the
+// same with and without it (the model does not take it as an input; the count is in the case line for
+// the record).  Returns the number of values edited and the undo (run after the observation).
+func extEditEarlier[V any](cd extCodec[V], c *Case, payloads ...[]byte) (int, func()) {
+	if cd.edit == nil || !c.R.Bool() {
+		return 0, func() {}
+	}
+	var undo []func()
+	for _, pl := range payloads {
+		var r0 V
+		var err error
+		if try(func() { err = cd.unmarshal(&r0, cloneBytes(pl)) }) || err != nil {
+			continue
+		}
+		if u := cd.edit(c.R, &r0); u != nil {
+			undo = append(undo, u)
+		}
+	}
+	if len(undo) > 0 {
+		c.Tag("earlier-results-edited-through-their-pointers")
+	}
+	return len(undo), func() {
+		for i := len(undo) - 1; i >= 0; i-- {
+			undo[i]()
+		}
+	}
 }
 
 func extWriteUnitRes(o *Toks, panicked bool, err error) {
@@ -60,11 +95,13 @@ func extGenMarshal[V any](cd extCodec[V]) func(x *Ctx) {
 				var out []byte
 				var err error
 				if try(func() { out, err = cd.marshal(v) }) {
+					c.I.Nat(0)
 					c.O.Panic().None().Bool(true)
 					c.Tag("marshal-panic")
 					return
 				}
 				if err != nil {
+					c.I.Nat(0)
 					c.O.Err("other").None().Bool(true)
 					c.Tag("marshal-err")
 					c.Trivial()
@@ -72,6 +109,9 @@ func extGenMarshal[V any](cd extCodec[V]) func(x *Ctx) {
 				}
 				c.Tag("marshal-ok")
 				c.O.Ok().Bytes(out)
+				edits, undo := extEditEarlier(cd, c, out)
+				defer undo()
+				c.I.Nat(edits)
 				recv := prev
 				var uerr error
 				p := try(func() { uerr = cd.unmarshal(&recv, out) })
@@ -105,6 +145,9 @@ func extGenUnmarshal[V any](cd extCodec[V]) func(x *Ctx) {
 				// The receiver starts as a struct copy of prev (`recv := prev`).  After every earlier
 				// decode that succeeded the caller keeps what was decoded (a struct copy of the receiver)
 				// and what it reports; after the decode under test the kept values are read again.
+				edits, undo := extEditEarlier(cd, c, append(append([][]byte{}, hist...), raw)...)
+				defer undo()
+				c.I.Nat(edits)
 				prevReported := extRender(cd, prev)
 				recv := prev
 				var kept []V
@@ -417,7 +460,16 @@ var extAbsCaptureCodec = extCodec[rtp.AbsCaptureTimeExtension]{
 	// decode writes through a pointer the receiver shares with a value the caller still holds is part
 	// of what the kinds observe
 	unmarshal: func(r *rtp.AbsCaptureTimeExtension, b []byte) error { return r.Unmarshal(b) },
-	randVal:   extRandCapture,
+	edit: func(r *Rand, v *rtp.AbsCaptureTimeExtension) func() {
+		p := v.EstimatedCaptureClockOffset
+		if p == nil {
+			return nil
+		}
+		old := *p
+		*p += int64(r.U64()>>uint(r.Intn(60))) | 1 // re-based by hand
+		return func() { *p = old }
+	},
+	randVal: extRandCapture,
 	values: func(x *Ctx, emit func(rtp.AbsCaptureTimeExtension)) {
 		for _, t := range extEdge64 {
 			emit(rtp.AbsCaptureTimeExtension{Timestamp: t})
